@@ -149,7 +149,9 @@ def register(R, P):
         loops={0: {"inv": [
             "IOV(self)",
             "all(implies(nm in _done and space.own_refs[nm].ghost_defined and not is_instance_named(space.own_refs[nm].interface, 'Interface'),"
-            " id_of(space.own_refs[nm].interface) in %s and any(%s[id_of(space.own_refs[nm].interface)][p] is space.own_refs[nm] for p in range(len(%s[id_of(space.own_refs[nm].interface)])))) for nm in every('str'))" % (V, V, V),
+            " id_of(space.own_refs[nm].interface) in %s) for nm in every('str'))" % V,
+            "all(implies(nm in _done and space.own_refs[nm].ghost_defined and not is_instance_named(space.own_refs[nm].interface, 'Interface'),"
+            " any(%s[id_of(space.own_refs[nm].interface)][p] is space.own_refs[nm] for p in range(len(%s[id_of(space.own_refs[nm].interface)])))) for nm in every('str'))" % (V, V),
             "all(implies(i in %s and 0 <= a and a < len(%s[i]) and nm in space.own_refs and space.own_refs[nm] is %s[i][a], %s[i][a].ghost_defined and nm in _done) for i in every('int') for a in every('int') for nm in every('str'))" % (V, V, V, V),
             "all(implies(old(i in %s) and 0 <= a and a < old(len(%s[i])), i in %s and a < len(%s[i]) and %s[i][a] is old(%s[i][a])) for i in every('int') for a in every('int'))" % (V, V, V, V, V, V),
             "unchanged(space.own_refs)",
